@@ -68,6 +68,8 @@ def run(chk, repo, tier):
             ok, det = False, 'the intensity branch takes paths the complex branch does not'
             continue
         wc = sc[k][1]
+        if not ws and not wc and p.ret == S('out'):
+            continue            # nothing is added on this path in either branch (a field wholly outside the array, C06-c)
         if len(ws) != 1 or len(wc) != 1:
             ok, det = False, 'more than one store into out on a path'
             continue
@@ -95,6 +97,8 @@ def run(chk, repo, tier):
         nret += 1
         from ..effects import _scalar_chain
         ws = [e for e in p.writes() if e.depth == 0 and not (e.data.get('how') == 'augassign' and _scalar_chain(e.target))]
+        if not ws and p.ret == S('out'):
+            continue            # the array comes back untouched; when that is legitimate is decided by C06-c / C07-a's insert rules
         if len(ws) != 1 or ws[0].data.get('aug') != 'add' or root_sym(ws[0].target) != 'out':
             bad.append(f'{len(ws)} write(s): ' + ', '.join(f'{e.data["how"]} {fmt(e.target)}' for e in ws))
         r = p.ret
